@@ -341,6 +341,60 @@ pub fn struct_entries(t: &[Tok]) -> Option<(&'static str, usize, Vec<(&'static s
     Some((name, len, out))
 }
 
+/// intern a map key so that it can be used where serde wants `&'static str` (a handful of
+/// distinct keys exist in the whole run)
+pub fn intern(s: &str) -> &'static str {
+    static KEYS: std::sync::Mutex<Vec<&'static str>> = std::sync::Mutex::new(Vec::new());
+    let mut g = KEYS.lock().unwrap();
+    if let Some(k) = g.iter().find(|k| **k == s) {
+        return k;
+    }
+    let k: &'static str = Box::leak(s.to_string().into_boxed_str());
+    g.push(k);
+    k
+}
+
+/// the top-level container of named entries: a struct, or a map with string keys
+/// (what `#[serde(flatten)]` produces)
+#[derive(Clone, Copy, Debug, PartialEq)]
+pub enum Top {
+    Struct(&'static str),
+    Map,
+}
+
+pub fn top_entries(t: &[Tok]) -> Option<(Top, Vec<(&'static str, u32, Vec<Tok>)>)> {
+    match t.first()? {
+        Tok::Struct(..) => struct_entries(t).map(|(n, _, e)| (Top::Struct(n), e)),
+        Tok::Map(_) => {
+            let mut out = vec![];
+            let mut j = 1;
+            while t[j] != Tok::MapEnd {
+                let Tok::Str(k) = &t[j] else { return None };
+                let e = skip_value(t, j + 1);
+                out.push((intern(k), out.len() as u32, t[j + 1..e].to_vec()));
+                j = e;
+            }
+            Some((Top::Map, out))
+        }
+        _ => None,
+    }
+}
+
+pub fn build_top(top: Top, entries: &[(&'static str, u32, Vec<Tok>)]) -> Vec<Tok> {
+    match top {
+        Top::Struct(name) => build_struct(name, entries),
+        Top::Map => {
+            let mut t = vec![Tok::Map(Some(entries.len()))];
+            for (k, _, v) in entries {
+                t.push(Tok::Str(k.to_string()));
+                t.extend(v.iter().cloned());
+            }
+            t.push(Tok::MapEnd);
+            t
+        }
+    }
+}
+
 pub fn build_struct(name: &'static str, entries: &[(&'static str, u32, Vec<Tok>)]) -> Vec<Tok> {
     let mut t = vec![Tok::Struct(name, entries.len())];
     for (k, i, v) in entries {
